@@ -1098,6 +1098,7 @@ pub fn run_check(tier_name: &str, seed: u64, verif_dir: &str) -> Outcome {
             "longest_history_of_one_thread": scenarios.iter().map(job_count).max().unwrap_or(0),
             "jobs_in_concurrent_rounds": concurrent_jobs,
             "interleaving_switches": switches,
+            "scheduling_points_from_log_statements": results.iter().flat_map(|r| r.jobs.iter()).map(|j| j.log_points).sum::<u64>(),
             "threads_created_by_the_code_under_test": results.iter().map(|r| r.lib_threads).sum::<u64>(),
             "distinct_interleavings": interleavings.len(),
             "outputs_with_rendered_union": unions,
